@@ -101,6 +101,23 @@ def check_arghandler(run, f, rule='R5'):
 
 
 def _classify(run, fi, f, el, comp, facts, indefs, cfg, s, argname, stored_name):
+    # an element chosen per item (x.A if type(x) == type(self) else self._import(x, check=check)): every alternative is judged on
+    # its own; the per-item class-equality test of the condition covers the stored value of that item
+    if isinstance(el, ast.IfExp):
+        out = []
+        for arm, pol in ((el.body, True), (el.orelse, False)):
+            b = matches('type(_V) == type(%s)' % s, el.test) if pol else matches('type(_V) != type(%s)' % s, el.test)
+            if b is not None and isinstance(arm, ast.Attribute) and arm.attr in ('A', '_A') and ast.dump(arm.value) == ast.dump(b['_V']):
+                out.append(('ok', 'value of an item whose class was tested equal to the receiver\'s'))
+            else:
+                out.append(_classify(run, fi, f, arm, comp, facts, indefs, cfg, s, argname, stored_name))
+        for v, m in out:
+            if v == 'bad':
+                return v, m
+        for v, m in out:
+            if v != 'ok':
+                return v, m
+        return 'ok', '; '.join(m for _, m in out)
     # identity
     if isinstance(el, ast.Call) and isinstance(el.func, ast.Attribute) and el.func.attr == '_identity':
         return 'ok', 'default-constructed identity value'
@@ -134,8 +151,10 @@ def _classify(run, fi, f, el, comp, facts, indefs, cfg, s, argname, stored_name)
                 return 'ok', 'value produced by the declared conversion method of a convertfrom class'
     # x.A / x.data of same-class objects
     if isinstance(el, ast.Attribute) and el.attr in ('A', '_A', 'data', 'S'):
+        from ..cfg import pure_locals as _pl, _subst_pure as _sp
+        env_ = _pl(f.node)
         for fc in facts:
-            t, pol = fc[2].ast, fc[1]
+            t, pol = _sp(fc[2].ast, env_), fc[1]          # cls = type(self); all(type(item) == cls for item in arg)
             if pol and (matches('all(map(lambda _V: type(_V) == type(%s), _X))' % s, t) is not None or
                         matches('all(type(_V) == type(%s) for _V in _X)' % s, t) is not None or
                         matches('all([type(_V) == type(%s) for _V in _X])' % s, t) is not None or
@@ -158,7 +177,12 @@ def _classify(run, fi, f, el, comp, facts, indefs, cfg, s, argname, stored_name)
             t, pol = fc[2].ast, fc[1]
             if pol and find_all('isnumberlist(%s)' % argname, canon(fi, t)):
                 return 'ok', 'list of numbers of the class\'s vector length (vector classes only)'
-    if not any(isinstance(n, ast.Name) and n.id == argname for n in ast.walk(el)):
+    derived = {argname}
+    if comp is not None:
+        for g in comp.generators:
+            if any(isinstance(n, ast.Name) and n.id in derived for n in ast.walk(g.iter)):
+                derived |= {n.id for n in ast.walk(g.target) if isinstance(n, ast.Name)}
+    if not any(isinstance(n, ast.Name) and n.id in derived for n in ast.walk(el)):
         return 'ok', 'value does not derive from the caller-supplied argument'
     return 'bad', 'caller-supplied value reaches data without passing _import / a class test'
 
